@@ -37,7 +37,7 @@ prop(
 
 prop(
     'C15',
-    ['S1', 'S2', 'S3', 'S6', 'S7', 'S8', 'S9', 'V1', 'V2', 'V3', 'X12'],
+    ['S1', 'S2', 'S3', 'S6', 'S7', 'S8', 'S9', 'V1', 'V2', 'V3', 'X12', 'M4'],
     explanation=(
         'Sibling agreement of the per-class protocol with the slot table derived from attrs field annotations (20 concrete '
         'AST classes, 23 child slots). S2: children() evaluated per enum member / None-ness combination allowed by the '
@@ -52,6 +52,7 @@ prop(
         'HplProperty.events() yields all four positions. S9: the own-field check searches every reference group without an '
         'early abort, accepts exactly a direct field of the current message and raises afterwards.'
         ' V1: the constant predicates answer every query with the right constant (no references, fresh empty set). V2: a simple event answers contains_reference / external_references through its predicate (own alias removed exactly when set) and contains_self_reference() as P or (alias and Q) on all 8 cases of the truth table. X12: no query with a declared result falls off the end.'
+        ' M4: a reference query writes nothing on the node it is asked about (no memo in metadata: but() copies metadata, so a rewritten tree would answer with the references of the old one; seeded C15d4).'
     ),
 )
 
@@ -122,7 +123,7 @@ prop(
 
 prop(
     'C03',
-    ['A3', 'A3r', 'A4', 'T1', 'T2', 'N2', 'N4', 'X9', 'M1', 'M3', 'M6'],
+    ['A3', 'A3r', 'A4', 'T1', 'T2', 'N2', 'N4', 'X9', 'M1', 'M2', 'M3', 'M6'],
     explanation=(
         'A3: each of the 13 expression-typed child fields is narrowed on construction to exactly its parameter type (cast '
         'converter or forcing validator; operand1 vs parameter1, operand2 vs parameter2), both sides of =/!= are unified and '
@@ -131,6 +132,7 @@ prop(
         'T1/T2: parameter and result types of 18 operators and 27 functions equal the reference. M1/M3/M6: parser and '
         'rewriter create nodes only through those validating constructors. N2: the same-reference check folds a running '
         'intersection over all occurrences of a reference and is reached from the expression validator.'
+        ' M2: the rewriter never hands a node it did not build to a forcing constructor without a cast() copy first: otherwise simplify() narrows, in place, a tree the parser handed out earlier, whose occurrences of one reference then disagree (seeded C03d4).'
     ),
 )
 
@@ -182,7 +184,7 @@ prop(
 
 prop(
     'C08',
-    ['T3', 'T4', 'R6', 'R7', 'R8', 'R9', 'R10', 'R11', 'R12', 'D5', 'V1', 'V3', 'X3b', 'X1', 'X2', 'T6'],
+    ['T3', 'T4', 'R6', 'R7', 'R8', 'R9', 'R10', 'R11', 'R12', 'R13', 'D5', 'V1', 'V3', 'X3b', 'X1', 'X2', 'T6'],
     explanation=(
         'The table-driven parts of the simplifier and its local identities: T3 commutative/associative flags equal the mathematical ground truth '
         '(used by _pre_simplify_binop to commute/re-associate), T4 INVERSE_OPERATORS is the mirror involution (used to flip '
@@ -215,6 +217,7 @@ prop(
         'float rounding).'
         " V1: HplVacuousTruth / HplContradiction report is_vacuous, is_true and their literal condition (token and value) correctly - simplify's re-wrapping, join and split_and read these constants."
         " R7 enumerates the operator of the input when a path leaves it open (every token the function is dispatched for that the path's tests allow): a negated `if op.is_less_than` is then checked against !=, <=, >, >= instead of being left undecided. R10 also compares the Python function a scalar fold calls with the reference (abs, math.sqrt, ..., math.atan2 with the arguments in order, math.log10 only under base == 10)."
+        ' R13: a node rebuilt in hpl.rewrite from the fields of a node of its own class keeps every semantic field (def-use over local names from the constructor / factory arguments back to `x.<field of K>`; fields the call leaves at their default and that are not read from the source node are reported: `HplRange(lb, ub)` from `expr.min_value` loses the exclusion flags); two positive controls and one negative control run every time.'
     ),
 )
 
@@ -234,13 +237,13 @@ prop(
 
 prop(
     'C12',
-    ['D2s', 'M3', 'T7'],
+    ['D2s', 'M3', 'T7', 'R13'],
     explanation=(
         'The repository has no trace semantics; the code-dependent part of the property is which positions are split and '
         'that copies differ in nothing else. D2s: the split set extracted from canonical_form (20 cells) is inside the '
         'sound-position table {absence/requirement/prevention behaviour, response trigger, after* activator}. The '
         'distribution lemma (forall/not-exists over a union of occurrence sets distributes as conjunction; exists does not) '
-        'is the trusted base.'
+        'is the trusted base. R13: a scope / pattern / event rebuilt in hpl.rewrite from the fields of the old one keeps the remaining fields (an `HplScope.after(e)` copy of an after-until scope loses the terminator).'
     ),
     assumptions=['distribution lemma for scope windows (DESIGN.md C12)'],
 )
